@@ -293,7 +293,8 @@ def prog(env, case):
         x0v = run.point(pep.list_of_points[0])[0]
         stat = [f_.list_of_stationary_points[0][0] for f_ in Function.list_of_functions if f_.list_of_stationary_points]
         xsv = run.point(stat[0])[0] if stat else None
-        ref = documented(name, vals, case['n'], functions[0][1], x0v, fams=[fm for _, fm in functions], xs=xsv)
+        ref = documented(name, vals, case['n'], functions[0][1], x0v, fams=[fm for _, fm in functions], xs=xsv,
+                         starts=[run.point(p_)[0] for p_ in pep.list_of_points])
         got = run.expr(pep.list_of_performance_metrics[0])
         env.check_rel(got - ref, '==', "example %s (n=%d): the modelled method is not the documented one - the metric on a "
                       "real run differs from the documented recurrences' performance" % (name, case['n']),
@@ -304,10 +305,16 @@ def prog(env, case):
 
 
 DOCUMENTED = {'gradient_descent', 'gradient_descent_qg', 'heavy_ball', 'accelerated_gradient_convex', 'halpern',
-              'krasnoselskii_mann', 'proximal_point', 'proximal_gradient', 'proximal_point_operators'}
+              'krasnoselskii_mann', 'proximal_point', 'proximal_gradient', 'proximal_point_operators',
+              'gradient_descent_lyapunov', 'douglas_rachford', 'three_operator_splitting'}
 
 
-def documented(name, vals, n, fam, x0, fams=(), xs=None):
+def _prox_quad(fm, gamma, z):
+    """proximal point of the 1-D member a/2 (x - c)^2 + b with step gamma at z"""
+    return (z + gamma * fm.a * fm.c) / (1 + gamma * fm.a)
+
+
+def documented(name, vals, n, fam, x0, fams=(), xs=None, starts=()):
     """performance of the method as the example's docstring states it (written from the docstrings, independently of the
     example bodies), on the 1-D real member `fam` started at x0"""
     G = lambda x: fam.grad([x], None, 'doc')[0]
@@ -365,6 +372,36 @@ def documented(name, vals, n, fam, x0, fams=(), xs=None):
         for t in range(n):
             prev, x = x, (x - vals['alpha'] * fam.b) / (1 + vals['alpha'] * fam.a)
         return (x - prev) * (x - prev)
+    if name == 'gradient_descent_lyapunov':
+        # V_k = k (f(x_k) - f_*) + L/2 |x_k - x_*|^2,  x_{n+1} = x_n - gamma f'(x_n);  V_{n+1} - V_n  (x0 plays x_n)
+        xs_ = fam.argmin(None)[0]
+        x1 = x0 - vals['gamma'] * G(x0)
+        Vn = n * (V(x0) - V(xs_)) + vals['L'] / 2 * (x0 - xs_) * (x0 - xs_)
+        Vn1 = (n + 1) * (V(x1) - V(xs_)) + vals['L'] / 2 * (x1 - xs_) * (x1 - xs_)
+        return Vn1 - Vn
+    if name == 'douglas_rachford':
+        # x_t = prox_{alpha f2}(w_t);  y_t = prox_{alpha f1}(2 x_t - w_t);  w_{t+1} = w_t + theta (y_t - x_t);
+        # F(y_{n-1}) - F(x_*), x_* the declared minimiser of f1 + f2
+        f1, f2 = fams[0], fams[1]
+        w = x0
+        y = None
+        for t in range(n):
+            x = _prox_quad(f2, vals['alpha'], w)
+            y = _prox_quad(f1, vals['alpha'], 2 * x - w)
+            w = w + vals['theta'] * (y - x)
+        return (f1.value([y]) + f2.value([y])) - (f1.value([xs]) + f2.value([xs]))
+    if name == 'three_operator_splitting':
+        # x_t = prox_{alpha f2}(w_t);  y_t = prox_{alpha f1}(2 x_t - w_t - alpha f3'(x_t));  w_{t+1} = w_t + theta (y_t - x_t)
+        # run from two starting points;  |w_n - w'_n|^2
+        f1, f2, f3 = fams[0], fams[1], fams[2]
+        outs = []
+        for w in starts[:2]:
+            for t in range(n):
+                x = _prox_quad(f2, vals['alpha'], w)
+                y = _prox_quad(f1, vals['alpha'], 2 * x - w - vals['alpha'] * f3.grad([x], None, 'doc')[0])
+                w = w + vals['theta'] * (y - x)
+            outs.append(w)
+        return (outs[0] - outs[1]) * (outs[0] - outs[1])
     raise KeyError(name)
 
 
